@@ -220,6 +220,15 @@ func init() {
 						}
 					}
 					if header == nil {
+						// two cells taken from two different rows at one and the same position that no
+						// loop advances: the rows are ordered by that one column (round 7, C04-r7bm2 — a
+						// position loop whose body always leaves it has no induction variable left)
+						if ex, ey := elemOfStrings(d.x), elemOfStrings(d.y); ex != nil && ey != nil && isOrdered(op) && d.threeWay == nil &&
+							sameIndexVal(ex.Index, ey.Index) && !sameElem(ex.X, ey.X) && !sameObject(ex.X, ey.X) && len(elemIndexPhi(d.x)) > 0 {
+							key := fmt.Sprintf("%s|single-position#%d", funcName(fn), n)
+							n++
+							r.bad(key, p.Rel(d.ifi.Cond.Pos()), "position-wise row comparison moves on to the next position when this one is equal", "two rows are ordered by the cells at one fixed position, inside a search loop and outside any loop over the positions: equal leading columns are taken for a decision")
+						}
 						continue
 					}
 					// comparing the induction variable itself (i < n) is not a row comparison
@@ -244,6 +253,12 @@ func init() {
 					target := header.Instrs[0]
 					// only paths that stay inside this loop count as "advancing to the next position"
 					exits := loopExitEdges(header)
+					// a position loop that no outcome of the comparison ever continues looks at the first
+					// position only: equality there must move on to the next column (round 7, C04-r7bm2)
+					if _, again := reachAfter(fn, d.ifi, target, exits, nil); !again {
+						r.bad(key, p.Rel(d.ifi.Cond.Pos()), "position-wise row comparison moves on to the next position when this one is equal", "no outcome of this comparison leads back into the loop over the positions: keys are ordered by their first column only, equal leading columns are taken for a decision")
+						continue
+					}
 					// a partner comparison earlier in the same iteration also discharges
 					if _, reach := reachAfter(fn, target, d.ifi, exits, blockers); !reach && len(blockers) > 0 {
 						r.okWhy(key, p.Rel(d.ifi.Cond.Pos()), what, "the same operands were already compared earlier in the iteration")
@@ -1110,4 +1125,24 @@ func init() {
 			return nil
 		},
 	})
+}
+
+// elemOfStrings: v is a load of x[k] where x is a []string; returns the IndexAddr.
+func elemOfStrings(v ssa.Value) *ssa.IndexAddr {
+	u, ok := stripConv(v).(*ssa.UnOp)
+	if !ok || u.Op != token.MUL {
+		return nil
+	}
+	ia, ok := u.X.(*ssa.IndexAddr)
+	if !ok {
+		return nil
+	}
+	sl, ok := ia.X.Type().Underlying().(*types.Slice)
+	if !ok {
+		return nil
+	}
+	if b, ok := sl.Elem().Underlying().(*types.Basic); !ok || b.Info()&types.IsString == 0 {
+		return nil
+	}
+	return ia
 }
